@@ -138,43 +138,53 @@ def quotesUpdate (q : List (ORef × Bool)) (r : ORef) (quoted : Bool) : List (OR
   | none => q ++ [(r, quoted)]
   | some _ => if !quoted then (q.filter (·.1 ≠ r)) ++ [(r, false)] else q
 
+/-- the option an entry name selects among the groups of its section (`no-ini` options are
+    invisible to the reader) -/
+def iniFindOption (E : Env) (P : Parser) (groups : List (Nat × Nat)) (name : Bytes) : Option ORef :=
+  groups.findSome? fun g =>
+    match P.optionByName E g.1 g.2 name with
+    | some r => if tagGet (P.opt r).tag (B "no-ini") ≠ [] then none else some r
+    | none => none
+
+/-- the value handed to `Option.Set` for an entry, and whether it counts as quoted: a flag with
+    an empty value gets no value; a map entry whose value part is a quoted literal is unquoted -/
+def iniEntryValue (file : Bytes) (o : Opt) (v : IniVal) : Except GoErr (Option Bytes × Bool) :=
+  if !o.ty.canArgument && v.value = [] then .ok (none, v.quoted)
+  else match o.ty with
+    | .map _ _ =>
+      match cut 0x3A v.value with
+      | (k, some (0x22 :: rest)) =>
+        match unquote (0x22 :: rest) with
+        | some u => .ok (some (k ++ [0x3A] ++ u), true)
+        | none => .error (.ini file v.line (B "invalid syntax"))
+      | _ => .ok (some v.value, v.quoted)
+    | _ => .ok (some v.value, v.quoted)
+
+def Opt.closeForDefaults (o : Opt) : Opt := { o with preventDefault := true }
+def Opt.rememberIniName (name : Bytes) (o : Opt) : Opt := { o with tag := tagSet o.tag (B "_read-ini-name") name }
+
+/-- what a successfully applied entry leaves behind besides the value: the option is closed for
+    defaults (normal mode) and remembers the name it was read under -/
+def iniMarkRead (asDefaults : Bool) (P : Parser) (r : ORef) (name : Bytes) : Parser :=
+  (if asDefaults then P else P.modOpt r Opt.closeForDefaults).modOpt r (Opt.rememberIniName name)
+
 /-- one entry of a section; on an error the parser keeps what `Option.Set` did before failing -/
 def iniApplyEntry (E : Env) (help : HelpFn) (asDefaults : Bool) (file : Bytes) (groups : List (Nat × Nat))
     (st : IniState) (v : IniVal) : IniState × Option GoErr :=
-  let P := st.P
-  let found := groups.findSome? fun (ci, gi) =>
-    match P.optionByName E ci gi v.name with
-    | some r => if tagGet (P.opt r).tag (B "no-ini") ≠ [] then none else some r
-    | none => none
-  match found with
+  match iniFindOption E st.P groups v.name with
   | none =>
-    if P.opts.ignoreUnknown then (st, none)
+    if st.P.opts.ignoreUnknown then (st, none)
     else (st, some (.ini file v.line (B "unknown option: " ++ v.name)))
   | some r =>
-    let o := P.opt r
-    if asDefaults && o.preventDefault then (st, none) else
-    -- the value handed to Set
-    let pval : Except GoErr (Option Bytes × Bool) :=
-      if !o.ty.canArgument && v.value = [] then .ok (none, v.quoted)
-      else match o.ty with
-        | .map _ _ =>
-          match cut 0x3A v.value with
-          | (k, some (0x22 :: rest)) =>
-            match unquote (0x22 :: rest) with
-            | some u => .ok (some (k ++ [0x3A] ++ u), true)
-            | none => .error (.ini file v.line (B "invalid syntax"))
-          | _ => .ok (some v.value, v.quoted)
-        | _ => .ok (some v.value, v.quoted)
-    match pval with
+    if asDefaults && (st.P.opt r).preventDefault then (st, none) else
+    match iniEntryValue file (st.P.opt r) v with
     | .error e => (st, some e)
     | .ok (pv, quoted) =>
-      let (P', log, err) := if asDefaults then optSetDefault E help P r pv st.log else optSet E help P r pv st.log
-      match err with
-      | some e => ({ st with P := P', log := log }, some (.ini file v.line e.text))
+      let res := if asDefaults then optSetDefault E help st.P r pv st.log else optSet E help st.P r pv st.log
+      match res.2.2 with
+      | some e => ({ st with P := res.1, log := res.2.1 }, some (.ini file v.line e.text))
       | none =>
-        let P' := if asDefaults then P' else P'.modOpt r fun o => { o with preventDefault := true }
-        let P' := P'.modOpt r fun o => { o with tag := tagSet o.tag (B "_read-ini-name") v.name }
-        ({ P := P', log := log, quotes := quotesUpdate st.quotes r quoted,
+        ({ P := iniMarkRead asDefaults res.1 r v.name, log := res.2.1, quotes := quotesUpdate st.quotes r quoted,
            deferred := if asDefaults then st.deferred ++ [r] else st.deferred }, none)
 
 def iniApplyEntries (E : Env) (help : HelpFn) (asDefaults : Bool) (file : Bytes) (groups : List (Nat × Nat)) :
